@@ -160,25 +160,96 @@ const coreContract = "0xc662c410C0ECf747543f5bA90660f6ABeBD9C8c4"
 // keccak("LogStateUpdate(uint256,int256,uint256)"), see l1/geth/contract
 var logStateUpdateTopic = common.HexToHash("0xd342ddf7a308dec111745b00315c14b7efb2bdae570a6856e088ed0c65a3576c")
 
-// tapProvider is the real provider; it only remembers the channel the client handed to
-// WatchStateUpdate so that the harness can observe its length.
+// retained is a value the code under test handed out (or was handed), kept together with a copy
+// taken at that moment: the content must never change afterwards (class "aliasing").
+type retained struct {
+	ptr  *jl1.StateUpdate
+	copy jl1.StateUpdate
+	via  string
+}
+
+// tapProvider is the real provider. It only (a) puts a channel of its own between
+// forwardStateUpdates and the client so that every delivered *StateUpdate can be retained (pointer +
+// copy) before it is passed on unchanged, (b) retains what FilterStateUpdate returns, and
+// (c) remembers the client's channel so that the harness can observe its length.
 type tapProvider struct {
 	*jl1.GethL1StateProvider
-	mu sync.Mutex
-	ch chan<- *jl1.StateUpdate
+	mu   sync.Mutex
+	ch   chan<- *jl1.StateUpdate
+	kept []retained
+}
+
+func (t *tapProvider) keep(u *jl1.StateUpdate, via string) {
+	t.mu.Lock()
+	t.kept = append(t.kept, retained{ptr: u, copy: *u, via: via})
+	t.mu.Unlock()
 }
 
 func (t *tapProvider) WatchStateUpdate(ctx context.Context, ch chan<- *jl1.StateUpdate) (jl1.Subscription, error) {
 	t.mu.Lock()
 	t.ch = ch
 	t.mu.Unlock()
-	return t.GethL1StateProvider.WatchStateUpdate(ctx, ch)
+	mid := make(chan *jl1.StateUpdate, 128)
+	sub, err := t.GethL1StateProvider.WatchStateUpdate(ctx, mid)
+	if err != nil {
+		return nil, err
+	}
+	go func() {
+		for {
+			select {
+			case u := <-mid:
+				t.keep(u, "WatchStateUpdate")
+				select {
+				case ch <- u:
+				case <-ctx.Done():
+					return
+				}
+			case <-ctx.Done():
+				return
+			}
+		}
+	}()
+	return sub, nil
+}
+
+func (t *tapProvider) FilterStateUpdate(ctx context.Context, from, to uint64) ([]*jl1.StateUpdate, error) {
+	out, err := t.GethL1StateProvider.FilterStateUpdate(ctx, from, to)
+	for _, u := range out {
+		t.keep(u, "FilterStateUpdate")
+	}
+	return out, err
 }
 
 func (t *tapProvider) channel() chan<- *jl1.StateUpdate {
 	t.mu.Lock()
 	defer t.mu.Unlock()
 	return t.ch
+}
+
+func (t *tapProvider) retainedSnapshot() []retained {
+	t.mu.Lock()
+	defer t.mu.Unlock()
+	return append([]retained{}, t.kept...)
+}
+
+// checkRetained: every retained update still has the content it had when it was handed over, and
+// distinct deliveries are distinct objects.
+func checkRetained(kept []retained, who string) *violation {
+	seen := map[*jl1.StateUpdate]int{}
+	for i, k := range kept {
+		if *k.ptr != k.copy {
+			return &violation{"l1:retained-update-changed:" + who, fmt.Sprintf(
+				"a StateUpdate handed over by %s changed afterwards: was {L2 %d hash %s L1 %d removed %v}, is {L2 %d hash %s L1 %d removed %v}",
+				k.via, k.copy.L2BlockNumber, k.copy.L2BlockHash.String(), k.copy.L1RefHeight, k.copy.Removed,
+				k.ptr.L2BlockNumber, k.ptr.L2BlockHash.String(), k.ptr.L1RefHeight, k.ptr.Removed)}
+		}
+		if j, dup := seen[k.ptr]; dup {
+			return &violation{"l1:update-pointer-shared:" + who, fmt.Sprintf(
+				"deliveries %d and %d (%s) are the same object", j+1, i+1, k.via)}
+		}
+		seen[k.ptr] = i
+	}
+	return nil
 }
 
 // ethNode is the "eth" namespace of the in-process node. Every handler blocks on the scheduler's
@@ -350,6 +421,12 @@ type run struct {
 	closed bool
 	bc     *blockchain.Blockchain
 
+	base     int // the head a restarted client found in the database (0 none)
+	registry sync.Map // event id -> [2]uint64{Starknet block number, state root}; read by the concurrent reader
+	kept     []retained // scripted mode: what the harness handed to the client
+	heads    []headSeen // what OnNewL1Head announced (pointer + copy)
+	feedIDs  []int      // what the L1-head feed delivered
+
 	// geth mode
 	node      *ethNode
 	tap       *tapProvider
@@ -389,7 +466,7 @@ func (r *run) nextL2() int {
 		}
 	}
 	if best == 0 {
-		return 1
+		return 0 // the first commit is Starknet block 0
 	}
 	return r.l2of[best] + 1
 }
@@ -407,7 +484,9 @@ func (r *run) update(id int, removed bool) *jl1.StateUpdate {
 func (r *run) send(id int, removed bool) {
 	r.sent = append(r.sent, msg{id, removed})
 	if r.node == nil {
-		r.ch <- r.update(id, removed) // buffered (128); the script never sends that many
+		u := r.update(id, removed)
+		r.kept = append(r.kept, retained{ptr: u, copy: *u, via: "the subscription"})
+		r.ch <- u // buffered (128); the script never sends that many
 		return
 	}
 	// geth mode: notify the subscription and wait until the log has travelled through the websocket,
@@ -456,6 +535,7 @@ func (r *run) mine(n int) {
 		r.nEv++
 		r.l1of[r.nEv] = r.top() + 1
 		r.l2of[r.nEv] = l2 + i
+		r.registry.Store(r.nEv, [2]uint64{uint64(l2 + i), uint64(1000 + r.nEv)})
 		ids = append(ids, r.nEv)
 	}
 	r.blocks = append(r.blocks, ids)
@@ -535,6 +615,9 @@ func (r *run) subFail() {
 // live returns the merged, not removed events as of the client's last call.
 func (r *run) live() map[int]bool {
 	live := map[int]bool{}
+	if r.base != 0 {
+		live[r.base] = true
+	}
 	for _, e := range r.filterApplied {
 		live[e] = true
 	}
@@ -570,6 +653,12 @@ func headID(h core.L1Head) int {
 
 type violation struct {
 	key, what string
+}
+
+type headSeen struct {
+	ptr        *core.L1Head
+	number     uint64
+	hash, root felt.Felt
 }
 
 // checkHead compares the database with the property; called while the client is blocked.
@@ -621,6 +710,9 @@ func (r *run) checkHead(lastFin int) *violation {
 }
 
 func (r *run) isMerged(e int) bool {
+	if e == r.base {
+		return true
+	}
 	for _, x := range r.filterApplied {
 		if x == e {
 			return true
@@ -674,8 +766,6 @@ func oneRun(seed int64, idx, rounds int, lag, geth bool) outcome {
 
 	r.bc = blockchain.New(memory.New(), &networks.Sepolia)
 	p := &provider{calls: make(chan *gcall)}
-	var prov jl1.L1StateProvider = p
-	ctx, cancel := context.WithCancel(context.Background())
 	if geth {
 		r.node = &ethNode{r: r, calls: p.calls, done: make(chan struct{})}
 		rpcServer := rpc.NewServer()
@@ -686,37 +776,218 @@ func oneRun(seed int64, idx, rounds int, lag, geth bool) outcome {
 		defer r.httpSrv.Close()
 		defer rpcServer.Stop()
 		defer close(r.node.done)
-		real, err := jl1.NewGethL1StateProvider(ctx, "ws"+strings.TrimPrefix(r.httpSrv.URL, "http"), eth.AddressFromString(coreContract))
-		if err != nil {
-			cancel()
-			out.broken = "cannot connect the real GethL1StateProvider to the in-process node: " + err.Error()
-			return out
-		}
-		r.tap = &tapProvider{GethL1StateProvider: real}
-		prov = r.tap
 	}
 	poll := []time.Duration{20 * time.Microsecond, 200 * time.Microsecond, 2 * time.Millisecond}[rng.Intn(3)]
 	listener := jl1.SelectiveListener{OnNewL1HeadCb: func(h *core.L1Head) {
 		r.log(event{Ev: "NewHead", X: headID(*h)})
+		seen := headSeen{ptr: h, number: h.BlockNumber}
+		if h.BlockHash != nil {
+			seen.hash = *h.BlockHash
+		}
+		if h.StateRoot != nil {
+			seen.root = *h.StateRoot
+		}
+		r.mu.Lock()
+		r.heads = append(r.heads, seen)
+		r.mu.Unlock()
 	}}
-	client := jl1.NewClient(prov, r.bc, log.NewNopZapLogger(),
-		jl1.WithPollFinalisedInterval(poll), jl1.WithResubscribeDelay(200*time.Microsecond),
-		jl1.WithCatchUpChunkSize(uint64(r.chunk)), jl1.WithEventListener(listener))
-	done := make(chan error, 1)
-	go func() { done <- client.Run(ctx) }()
+
+	// ---- observers that live as long as the run (class "concurrency"): a reader of
+	// Blockchain.L1Head() racing with the client's writes, and a subscriber of the L1-head feed
+	stopObservers := make(chan struct{})
+	var observers sync.WaitGroup
+	var obsMu sync.Mutex
+	var obsViol *violation
+	observe := func(v *violation) {
+		obsMu.Lock()
+		if obsViol == nil {
+			obsViol = v
+		}
+		obsMu.Unlock()
+	}
+	observers.Add(2)
+	go func() {
+		defer observers.Done()
+		defer func() {
+			if p := recover(); p != nil {
+				observe(&violation{"l1:concurrent-read:panic", fmt.Sprint("Blockchain.L1Head() panicked under a concurrent writer: ", p)})
+			}
+		}()
+		var lastL2 uint64
+		seenAny := false
+		for n := 0; ; n++ {
+			select {
+			case <-stopObservers:
+				return
+			default:
+			}
+			h, err := r.bc.L1Head()
+			switch {
+			case errors.Is(err, db.ErrKeyNotFound):
+				if seenAny {
+					observe(&violation{"l1:concurrent-read:vanished", "a concurrent reader found no L1 head after it had seen one"})
+					return
+				}
+			case err != nil:
+				observe(&violation{"l1:concurrent-read:error", err.Error()})
+				return
+			default:
+				id := headID(h)
+				f, known := r.registry.Load(id)
+				if !known || h.StateRoot == nil {
+					observe(&violation{"l1:concurrent-read:unknown-commit", fmt.Sprintf("a concurrent reader saw a head that is no commit of the L1 node: number %d hash id %d", h.BlockNumber, id)})
+					return
+				}
+				want := f.([2]uint64)
+				if h.BlockNumber != want[0] || !h.StateRoot.Equal(new(felt.Felt).SetUint64(want[1])) {
+					observe(&violation{"l1:concurrent-read:torn", fmt.Sprintf("a concurrent reader saw a head mixing two commits: number %d hash id %d root %s", h.BlockNumber, id, h.StateRoot)})
+					return
+				}
+				if seenAny && h.BlockNumber < lastL2 {
+					observe(&violation{"l1:concurrent-read:regressed", fmt.Sprintf("a concurrent reader saw the Starknet block number go from %d to %d", lastL2, h.BlockNumber)})
+					return
+				}
+				seenAny, lastL2 = true, h.BlockNumber
+			}
+			if n%8 == 0 {
+				time.Sleep(5 * time.Microsecond)
+			}
+		}
+	}()
+	feedSub := r.bc.SubscribeL1Head()
+	go func() {
+		defer observers.Done()
+		for {
+			select {
+			case h, ok := <-feedSub.Recv():
+				if !ok {
+					return
+				}
+				if h != nil {
+					r.mu.Lock()
+					r.feedIDs = append(r.feedIDs, headID(*h))
+					r.mu.Unlock()
+				}
+			case <-stopObservers:
+				return
+			}
+		}
+	}()
+
+	type runEnd struct {
+		err      error
+		panicked any
+	}
+	var (
+		cancel context.CancelFunc
+		done   chan runEnd
+	)
+	// startClient creates a NEW client (and, in geth mode, a new real provider: Run closes its
+	// provider when it returns) on the same database.
+	startClient := func() string {
+		var ctx context.Context
+		ctx, cancel = context.WithCancel(context.Background())
+		var prov jl1.L1StateProvider = p
+		if geth {
+			real, err := jl1.NewGethL1StateProvider(ctx, "ws"+strings.TrimPrefix(r.httpSrv.URL, "http"), eth.AddressFromString(coreContract))
+			if err != nil {
+				return "cannot connect the real GethL1StateProvider to the in-process node: " + err.Error()
+			}
+			if r.tap != nil {
+				r.kept = append(r.kept, r.tap.retainedSnapshot()...)
+			}
+			r.tap = &tapProvider{GethL1StateProvider: real}
+			prov = r.tap
+		}
+		client := jl1.NewClient(prov, r.bc, log.NewNopZapLogger(),
+			jl1.WithPollFinalisedInterval(poll), jl1.WithResubscribeDelay(200*time.Microsecond),
+			jl1.WithCatchUpChunkSize(uint64(r.chunk)), jl1.WithEventListener(listener))
+		d := make(chan runEnd, 1)
+		done = d
+		go func() {
+			defer func() {
+				if p := recover(); p != nil {
+					d <- runEnd{panicked: p}
+				}
+			}()
+			d <- runEnd{err: client.Run(ctx)}
+		}()
+		return ""
+	}
+	// stopClient cancels the client and waits for Run to return.
+	stopClient := func() string {
+		cancel()
+		select {
+		case e := <-done:
+			if e.panicked != nil && out.viol == nil {
+				out.viol = &violation{"l1:panic", fmt.Sprint("l1.Client.Run panicked: ", e.panicked)}
+			}
+		case <-time.After(gateTimeout):
+			return "client.Run did not return after cancellation"
+		}
+		return ""
+	}
 	finish := func() {
 		r.mu.Lock()
 		r.closed = true
 		r.mu.Unlock()
-		cancel()
-		select {
-		case <-done:
-		case <-time.After(gateTimeout):
-			out.broken = "client.Run did not return after cancellation"
+		if msg := stopClient(); msg != "" && out.viol == nil {
+			out.broken = msg
 		}
+		close(stopObservers)
+		feedSub.Unsubscribe()
+		observers.Wait()
 		out.events = r.events
+		if out.viol != nil {
+			return
+		}
+		// ---- end-of-run checks on everything that was handed over or observed
+		kept := r.kept
+		who := "client" // scripted mode: only the client could have changed what the harness handed over
+		if r.tap != nil {
+			kept = append(kept, r.tap.retainedSnapshot()...)
+			who = "provider"
+		}
+		if v := checkRetained(kept, who); v != nil {
+			out.viol = v
+			return
+		}
+		var announced []int
+		for _, h := range r.heads {
+			announced = append(announced, int(h.hash.Uint64()))
+			if h.ptr.BlockNumber != h.number || h.ptr.BlockHash == nil || h.ptr.StateRoot == nil ||
+				!h.ptr.BlockHash.Equal(&h.hash) || !h.ptr.StateRoot.Equal(&h.root) {
+				out.viol = &violation{"l1:announced-head-changed", fmt.Sprintf(
+					"the *core.L1Head passed to OnNewL1Head (Starknet block %d) was modified afterwards", h.number)}
+				return
+			}
+		}
+		i := 0
+		for _, id := range r.feedIDs { // the feed is lossy: a subsequence of what was announced
+			for i < len(announced) && announced[i] != id {
+				i++
+			}
+			if i == len(announced) {
+				out.viol = &violation{"l1:head-feed:not-announced", fmt.Sprintf(
+					"the L1-head feed delivered %v, OnNewL1Head announced %v", r.feedIDs, announced)}
+				return
+			}
+			i++
+		}
+		st["feed_heads_seen"] += len(r.feedIDs)
+		obsMu.Lock()
+		out.viol = obsViol
+		obsMu.Unlock()
+	}
+	if msg := startClient(); msg != "" {
+		out.broken = msg
+		close(stopObservers)
+		feedSub.Unsubscribe()
+		observers.Wait()
+		return out
 	}
 
+	restarted := false
 	lastFin := 0
 	checkPending := false    // a setL1Head completed since the last check
 	nextFinIsSnapshot := false // the next FinalisedHeight call is catch-up's snapshot, not a setL1Head
@@ -725,9 +996,14 @@ func oneRun(seed int64, idx, rounds int, lag, geth bool) outcome {
 		var c *gcall
 		select {
 		case c = <-p.calls:
-		case err := <-done:
-			out.broken = fmt.Sprintf("client.Run returned early: %v", err)
-			out.events = r.events
+		case e := <-done:
+			done <- e // finish() collects it
+			if e.panicked != nil {
+				out.viol = &violation{"l1:panic", fmt.Sprint("l1.Client.Run panicked: ", e.panicked)}
+			} else {
+				out.broken = fmt.Sprintf("client.Run returned early: %v", e.err)
+			}
+			finish()
 			return out
 		case <-time.After(gateTimeout):
 			out.broken = "client did not reach a provider call (quiescence timeout)"
@@ -781,6 +1057,41 @@ func oneRun(seed int64, idx, rounds int, lag, geth bool) outcome {
 			st["undrained_runs"]++
 			finish()
 			return out
+		}
+
+		// ---- restart: stop this client while it is blocked in the call, start a new one on the same database
+		if !winding && !restarted && round > 2 && rng.Intn(40) == 0 {
+			restarted = true
+			st["restarts"]++
+			r.log(event{Ev: "Restart"})
+			if msg := stopClient(); msg != "" {
+				out.broken = msg
+				finish()
+				return out
+			}
+			if out.viol != nil {
+				finish()
+				return out
+			}
+			select { // release the rpc handler of the abandoned call (geth mode)
+			case c.resp <- gresp{err: errors.New("node restarted")}:
+			default:
+			}
+			r.base = r.expStored
+			r.ch, r.sub, r.subUp = nil, nil, false
+			r.sent, r.consumed, r.filterApplied = nil, 0, nil
+			r.delivered = map[int]bool{}
+			if r.base != 0 {
+				r.delivered[r.base] = true
+			}
+			r.forceFail = false
+			nextFinIsSnapshot, checkPending = false, false
+			if msg := startClient(); msg != "" {
+				out.broken = msg
+				finish()
+				return out
+			}
+			continue
 		}
 
 		// ---- the scripted node acts
@@ -871,7 +1182,11 @@ func oneRun(seed int64, idx, rounds int, lag, geth bool) outcome {
 				got = r.eventsIn(int(c.from), int(c.to))
 				resp.ids = got
 				for _, e := range got {
-					resp.events = append(resp.events, r.update(e, false))
+					u := r.update(e, false)
+					if r.node == nil {
+						r.kept = append(r.kept, retained{ptr: u, copy: *u, via: "FilterStateUpdate"})
+					}
+					resp.events = append(resp.events, u)
 					r.delivered[e] = true
 					r.filterApplied = append(r.filterApplied, e)
 				}
